@@ -94,7 +94,18 @@ class World:
         c.assume(z3.Implies(z3.Not(self.vars_empty), self.invars(kw)))
         # requires: the names in vars are keys of data (else KeyError, as documented)
         c.assume(z3.ForAll([k], z3.Implies(self.invars(k), self.indata(k))))
+        self.itat = z3.Function('itat', I, I)
+        self.n = z3.Int('n_it')
+        self.dat = z3.Function('dat', I, I)          # list(data['it'])[p]
+        self.ndat = z3.Int('n_data_it')
         a, b = z3.Int('i!a'), z3.Int('i!b')
+        m = z3.Int('m!w')
+        c.assume(z3.And(self.n >= 0, self.ndat >= 0))
+        c.assume(z3.ForAll([a], z3.Implies(self.init(a), z3.And(self.rank(a) < self.n, self.itat(self.rank(a)) == a))))
+        c.assume(z3.ForAll([m], z3.Implies(z3.And(m >= 0, m < self.n), z3.And(self.init(self.itat(m)), self.rank(self.itat(m)) == m))))
+        # requires: the iterations passed to save_data are among data['it'] (distinct values): pos is their position there
+        c.assume(z3.ForAll([a], z3.Implies(self.init(a), z3.And(self.pos(a) >= 0, self.pos(a) < self.ndat, self.dat(self.pos(a)) == a))))
+        c.assume(z3.ForAll([a, b], z3.Implies(z3.And(a >= 0, a < self.ndat, b >= 0, b < self.ndat, a != b), self.dat(a) != self.dat(b))))
         # rank = position in sorted(set(it)): 0-based, strictly increasing with the iteration value
         c.assume(z3.ForAll([a], z3.Implies(self.init(a), self.rank(a) >= 0)))
         c.assume(z3.ForAll([a, b], z3.Implies(z3.And(self.init(a), self.init(b), a < b), self.rank(a) < self.rank(b))))
@@ -201,6 +212,9 @@ class SSorted(SIterList):
     """sorted(set(it)): distinct iteration values in increasing order"""
 
     def __getitem__(self, n):
+        w = self.world
+        if w is not None and hasattr(w, 'itat'):
+            return SeqView(w.n, lambda p: w.itat(p)).__getitem__(n)
         if n == 0 or n == -1:
             c = SX.ctx()
             m = c.new_int('it_first' if n == 0 else 'it_last')
@@ -228,6 +242,53 @@ class Attr:
 
     def __ne__(self, o):
         return not self.__eq__(o)
+
+    __hash__ = None
+
+
+class SeqView:
+    """a symbolic sequence of iteration values: length (z3 Int) and element function; supports len(), [0], [-1], [:1], [-1:],
+    == between two views of length <= 1"""
+
+    def __init__(self, length, at):
+        self.length, self.at = length, at
+
+    def first(self):
+        return self.at(z3.IntVal(0))
+
+    def last(self):
+        return self.at(self.length - 1)
+
+    def __getitem__(self, n):
+        c = SX.ctx()
+        if isinstance(n, slice):
+            if (n.start, n.stop, n.step) == (None, 1, None):
+                return HeadTail(self.length, self.first())
+            if (n.start, n.stop, n.step) == (-1, None, None):
+                return HeadTail(self.length, self.last())
+            raise SX.PathAbort(f'slice {n} of a symbolic sequence')
+        if n == 0 or n == -1:
+            c.require('indexing a sequence of iterations: it is not empty (no IndexError)', self.length > 0)
+            return Z(self.first() if n == 0 else self.last())
+        raise SX.PathAbort('indexing a symbolic sequence at a position other than 0 / -1')
+
+
+class HeadTail:
+    """seq[:1] or seq[-1:]: empty, or the one-element list [e]"""
+
+    def __init__(self, length, e):
+        self.length, self.e = length, e
+
+    def __eq__(self, o):
+        if isinstance(o, HeadTail):
+            return Z(z3.Or(z3.And(self.length <= 0, o.length <= 0), z3.And(self.length > 0, o.length > 0, self.e == o.e)))
+        if isinstance(o, list) and o == []:
+            return Z(self.length <= 0)
+        raise SX.PathAbort('comparison of a one-element slice with something else')
+
+    def __ne__(self, o):
+        r = self.__eq__(o)
+        return Z(z3.Not(r.e))
 
     __hash__ = None
 
@@ -262,11 +323,12 @@ class SItsCol(SCol):
     pass
 
 
-class SItsList:
+class SItsList(SeqView):
     """list(data['it'])"""
 
     def __init__(self, w):
         self.w = w
+        SeqView.__init__(self, w.ndat, lambda p: w.dat(p))
 
     def index(self, i):
         # requires: every iteration passed to save_data is one of data['it'] (else ValueError)
@@ -410,10 +472,19 @@ def make_globals(w, real_globals, datapath_ok):
     def s_int(v, *a):
         return v if isinstance(v, Z) else builtins.int(v, *a)
 
+    def s_len(x):
+        if isinstance(x, SeqView):
+            return Z(x.length)
+        if isinstance(x, SSorted) and hasattr(w, 'n'):
+            return Z(w.n)
+        if isinstance(x, (SVarList, SIterList, SData)):
+            raise SX.PathAbort(f'len() of a symbolic {type(x).__name__}')
+        return builtins.len(x)
+
     class H5:
         def File(self, name, mode='r'):
             tmpl, toks = FM.parse_name(name)
-            if len(toks) != 1 or not datapath_ok(tmpl):
+            if builtins.len(toks) != 1 or not datapath_ok(tmpl):
                 SX.ctx().require(f'file name is <datapath>/it_<iteration>.hdf5 (got template {tmpl!r})', z3.BoolVal(False))
                 raise SX.PathEnd()
             return FileView(w, to_z3(toks[0]), mode)
@@ -449,7 +520,7 @@ def make_globals(w, real_globals, datapath_ok):
 
         def shape(self, x):
             return x.shape if isinstance(x, (SVal, DSView)) else getattr(x, 'shape', ())
-    g.update(list=s_list, set=s_set, sorted=s_sorted, int=s_int, h5py=H5(), os=OS(), np=NP(), print=lambda *a, **k: None)
+    g.update(list=s_list, set=s_set, sorted=s_sorted, int=s_int, len=s_len, h5py=H5(), os=OS(), np=NP(), print=lambda *a, **k: None)
     return g
 
 
@@ -705,8 +776,11 @@ def _one_config(args):
     for res, c in paths:
         for nm, goal, pc in c.obls:
             r = agg.setdefault(nm, dict(valid=0, invalid=[], unknown=[], secs=0.0))
-            if r['invalid'] or len(r['unknown']) >= 2 or time.time() - t0 > 240:
-                continue              # one counter-model per obligation is enough; keep the run inside its budget
+            if r['invalid'] or len(r['unknown']) >= 2:
+                continue              # one counter-model per obligation is enough
+            if time.time() - t0 > 240:
+                r['unknown'].append('not attempted: the time budget of this configuration was used up (an instance that is not proved is never counted as discharged)')
+                continue
             v, model, secs = prove(pc, goal, 10000)
             r['secs'] += secs
             (r['invalid'].append(str(model)[:400]) if v == 'invalid' else r['unknown'].append(str(model)) if v == 'unknown'
